@@ -621,8 +621,11 @@ def _timing_desc(rng, count, fam=None):
 def _direct_desc(rng, kind=None):
     kind = kind or rng.choice("ACSD")
     dtype = rng.choice(sorted(W.SUPPORTED[kind]))
+    # a few long ones: NumPy rebuilds arrays above a small size over the pickle's own bytes
     n = rng.choice([0, 0, 1, 2, 3, 5])
     ncols = rng.choice([0, 1, 2, 3, 4]) if kind == "D" else 1
+    if rng.random() < 0.02 and ncols and W.np_dtype(dtype).itemsize * ncols >= 4:
+        n = 1100 // (W.np_dtype(dtype).itemsize * ncols) + 1     # just over 1 KiB of samples
     hi = 2 if dtype == "bool" else 8 if kind == "D" else 100
     d = {"kind": kind, "dtype": dtype, "vals": [[rng.randrange(hi) for _ in range(ncols)] for _ in range(n)], "ncols": ncols,
          "pre": rng.choice([0, 0, 1, 3]), "post": rng.choice([0, 0, 2]), "props": _props_desc(rng)}
